@@ -217,6 +217,54 @@ def scen_ij(w, S=3):
             "%s expected ceil(%r)" % (desc, abs(sweep) * rad))
 
 
+def scen_handler(w, S=3):
+    """Through the real G2/G3 handler, the SAME arc command twice (second one starts where the first ended): the points
+    handed to the region test must lie on the circle around *that command's* start + (I, J)."""
+    state, h, x, y = setup(w)
+    i, j, ex, ey = w.real("i"), w.real("j"), w.real("ex"), w.real("ey")
+    cw = w.flag("clockwise")
+    r2 = i * i + j * j
+    lo, hi = (0.04, 0.16) if not w.symbolic else (__import__("fractions").Fraction(4, 100), __import__("fractions").Fraction(16, 100))
+    w.assume(alg.and_(r2 >= lo, r2 <= hi))           # radius 0.2 .. 0.4: a full circle has at most 3 segments
+    if w.symbolic:
+        from symx import trig, values
+        trig.LIGHT[0] = False
+        values.HYPOT_LIGHT[0] = False
+        w.ctx.notes["int_bounds"] = (0, S)
+    style = ["", "."][w.choose(2, "j-spelling")]
+    if style == ".":
+        w.assume(alg.and_(j > 0, j < 1))
+    calls = []
+    real_plm = state.processLinearMoves
+
+    def processLinearMoves(cmd, e, f, z, *xy):
+        calls.append(list(xy))
+        return real_plm(cmd, e, f, z, *xy)
+    state.processLinearMoves = processLinearMoves
+    text = "%s X%s Y%s I%s J%s" % ("G2" if cw else "G3", w.key(ex), w.key(ey), w.key(i), w.key(j, style))
+    starts = [(x, y), (ex, ey)]
+    for rep in range(2):
+        try:
+            h.handleGcode(text, "G2" if cw else "G3", None)
+        except Exception as exc:
+            w.fail("arc-handler-raises", "%r" % (exc,))
+            return
+        if len(calls) != rep + 1:
+            w.fail("arc-not-planned", "%s (occurrence %d) was not handed to the region test" % (text, rep + 1))
+            return
+        pts = calls[-1]
+        sx, sy = starts[rep]
+        cx, cy = sx + i, sy + j
+        conds = [alg.eq(pts[-2], ex), alg.eq(pts[-1], ey)]
+        for k in range(0, len(pts) - 2, 2):
+            d = (pts[k] - cx) * (pts[k] - cx) + (pts[k + 1] - cy) * (pts[k + 1] - cy)
+            conds.append(d == r2 if w.symbolic else abs(d - r2) <= 1e-9)
+        w.cover("handler-arc-%d-segments-%d" % (rep + 1, len(pts) // 2))
+        if not w.check(alg.and_(*conds), "handler-samples-on-this-commands-circle",
+                       "%s occurrence %d, %d segments" % (text, rep + 1, len(pts) // 2)):
+            return
+
+
 def scen_radius(w):
     state, h, x, y = setup(w)
     ex, ey, r = w.real("ex"), w.real("ey"), w.real("r")
@@ -248,7 +296,7 @@ def scen_radius(w):
             "clockwise=%s: |centre-start|^2=%s |centre-end|^2=%s R^2=%s" % (cw, d1, d2, r * r) if not w.symbolic else "clockwise=%s" % cw)
 
 
-SCENARIOS = {"ij": scen_ij, "radius": scen_radius}
+SCENARIOS = {"ij": scen_ij, "radius": scen_radius, "handler": scen_handler}
 
 META = {
     "assumptions": [
@@ -272,4 +320,6 @@ def plan(tier):
                  bounds={"segments": "1..%d" % S, "radius": "0.2..500"}),
         Scenario("radius", scen_radius, cover=["radius-form"], bounds={"radius": "0.2..500"},
                  excludable=[KF_RADIUS]),
+        Scenario("handler", scen_handler, params={"S": 3}, cover=["handler-arc-2-segments-2"],
+                 bounds={"segments": "1..3", "radius": "0.2..0.4", "commands": "the same G2/G3 text twice"}),
     ]
